@@ -71,10 +71,107 @@ class Buf:
             return PyFunc(fl)
         if name == "shape":
             return self.shape
+        if name == "reshape":
+            def rs(args, kwargs, node):
+                shp = args[0] if len(args) == 1 and isinstance(
+                    args[0], tuple) else tuple(args)
+                if kwargs.get("order", "C") not in ("C", "c"):
+                    raise Unsupported("non-C reshape of an output buffer")
+                return ViewBuf(self, shp)
+            return PyFunc(rs)
         raise Unsupported(f"buffer attribute {name}")
 
     def skv_neg(self):
         return FlatBuf(self, None, neg=True)
+
+
+def _rep(v):
+    """representative integer of an extent"""
+    if isinstance(v, SymInt):
+        return int(v.value)
+    if isinstance(v, Fraction) and v.denominator == 1:
+        return int(v)
+    if isinstance(v, int):
+        return v
+    return None
+
+
+class ViewBuf:
+    """``buf.reshape(-1, last)``: a view whose leading axes merge leading
+    axes of the buffer in C order.  A store at a (merged) leading index is
+    translated back to the buffer's own index, with the representative
+    local sizes of the run; an index outside the merged extent raises like
+    numpy does."""
+
+    def __init__(self, base: "Buf", shape):
+        self.base = base
+        shape = list(shape)
+        bshape = list(base.shape)
+        # trailing axes kept as they are
+        k = 0
+        while k < len(shape) - 1 and k < len(bshape) - 1 and \
+                _rep(shape[-1 - k]) is None and \
+                shape[-1 - k] == bshape[-1 - k]:
+            k += 1
+        if k == 0 and shape and bshape and shape[-1] == bshape[-1]:
+            k = 1
+        self.ntrail = k
+        lead_b = [_rep(x) for x in bshape[:len(bshape) - k]]
+        lead_v = shape[:len(shape) - k]
+        if any(x is None for x in lead_b):
+            raise Unsupported("view of a buffer with symbolic leading "
+                              "extents")
+        total = 1
+        for x in lead_b:
+            total *= x
+        known = [(_rep(x) if _rep(x) is not None else None) for x in lead_v]
+        if known.count(-1) > 1 or any(x is None for x in known):
+            raise Unsupported("view shape")
+        prod = 1
+        for x in known:
+            if x != -1:
+                prod *= x
+        if -1 in known:
+            if prod == 0 or total % prod:
+                raise Raised("ValueError: cannot reshape")
+            known[known.index(-1)] = total // prod
+        elif prod != total:
+            raise Raised("ValueError: cannot reshape")
+        self.lead_v, self.lead_b = known, lead_b
+        self.shape = tuple(known) + tuple(bshape[len(bshape) - k:])
+
+    def skv_getattr(self, name):
+        if name == "shape":
+            return self.shape
+        raise Unsupported(f"view attribute {name}")
+
+    def skv_getitem(self, ix):
+        raise Unsupported("read of an output buffer inside the producer")
+
+    def skv_setitem(self, ix, v):
+        ixs = list(ix) if isinstance(ix, tuple) else [ix]
+        ints = []
+        for x in ixs:
+            if isinstance(x, Fraction) and x.denominator == 1:
+                x = int(x)
+            if isinstance(x, Poly) and x.is_const():
+                x = int(x.const_value())
+            if not isinstance(x, int):
+                raise Unsupported("symbolic index into a buffer view")
+            ints.append(x)
+        if len(ints) != len(self.lead_v):
+            raise Unsupported("partial index into a buffer view")
+        flat = 0
+        for x, n in zip(ints, self.lead_v):
+            if x < -n or x >= n:
+                raise Raised(f"IndexError: index {x} is out of bounds for "
+                             f"axis with size {n}")
+            flat = flat * n + (x % n)
+        back = []
+        for n in reversed(self.lead_b):
+            back.append(flat % n)
+            flat //= n
+        self.base.skv_setitem(tuple(reversed(back)), v)
 
 
 class FlatBuf:
@@ -83,6 +180,13 @@ class FlatBuf:
 
     def skv_neg(self):
         return FlatBuf(self.buf, self.order, not self.neg)
+
+
+class Params(dict):
+    """stands for FormExtraParams: a dict with attribute access.  Whatever
+    the interpreted code derives from it with plain dict operations
+    (``.copy()``, ``dict(w)``, ``{**w}``) is an ordinary dict again - as in
+    Python, where the subclass does not override them."""
 
 
 class IndexStack:
@@ -297,7 +401,7 @@ class Run:
                                   kwargs.get("args", ()), node)
             if name.endswith("FormExtraParams"):
                 run.events.append(("params", args[0], node))
-                return args[0]
+                return Params(args[0])
             if name.endswith("JaxDiscreteField"):
                 return args[0] if args else None
             if name in ("jax.linearize",):
@@ -329,6 +433,10 @@ class Run:
                     tags.append("w")
                 else:
                     tags.append("?")
+            for x in a:
+                if isinstance(x, dict) and not isinstance(x, Params):
+                    run.events.append(("plain-dict-params",
+                                       run.current_thread, n))
             run.form_calls.append((list(a), n))
             return Poly.sym("form(" + ";".join(tags) + ")")
         self.obj.attrs["form"] = PyFunc(form)
